@@ -78,7 +78,7 @@ func runC09(p *Prog, r *Report) {
 // returned without error — so the writer neither spins nor waits on a compaction error forever;
 // a closed DB and a failed wait end the loop.
 func ruleWriteBackpressure(p *Prog, r *Report, rule string) {
-	r.Begin(rule, "E-ORD", "write backpressure (DB.flush): the retry closure answers 'again' only after the one-off slowdown sleep or after compTriggerWait(tcompCmdC) returned nil; it stops on a closed DB (no effective buffer) and on a failed wait; the slowdown sleep happens at most once per write (guarded by the delayed flag it sets); the pause flag set around the wait is cleared on every path", 5)
+	r.Begin(rule, "E-ORD", "write backpressure (DB.flush): the retry closure answers 'again' only after the one-off slowdown sleep or after compTriggerWait(tcompCmdC) returned nil; it stops on a closed DB (no effective buffer) and on a failed wait; the slowdown sleep happens at most once per write (guarded by the delayed flag it sets)", 5)
 	defer r.End()
 	fn := resolveFn(p, r, "leveldb", "(*DB).flush")
 	if fn == nil {
@@ -126,21 +126,6 @@ func ruleWriteBackpressure(p *Prog, r *Report, rule string) {
 	delayed := boolAtom("delayed", mCellNamed("delayed"))
 	checkGuard(p, r, GuardSpec{Rule: "slowdown-once", Fn: cl, Target: sleep, TargetDesc: "the slowdown sleep", Atoms: []Atom{delayed}, G: func(a []bool) bool { return !a[0] }, GDesc: "¬delayed (and it sets delayed)", MinTargets: 1})
 	ordPrecede(p, r, cl, "sleep-sets-delayed", nil, evStoreCell("delayed"), "delayed = true", sleep, "time.Sleep")
-	// pause flag cleared after the wait on every path
-	setPaused := func(val int64) InstrPred {
-		return func(in ssa.Instruction) bool {
-			return isCallTo(in, "sync/atomic.StoreInt32") && argIs(in, 0, func(v ssa.Value) bool { return isFieldAddr(v, tDB, "inWritePaused") }) && argIs(in, 1, mConstInt(val))
-		}
-	}
-	// (on EVERY path, error exits included: ordFollow would prune those)
-	if requireSites(p, r, cl, "pause-flag-set", "inWritePaused = 1", setPaused(1), 1) {
-		r.Site(1)
-		if w := findPath(after(cl, setPaused(1)), nil, setPaused(0), isReturn); w != nil {
-			r.Fail(fnName(cl), "pause-flag-stuck", "the write-paused flag is cleared on every path after it was set", "a path returns with inWritePaused still 1", p.posOfLast(w, isReturn), p.renderPath(w))
-		} else {
-			r.OK(fnName(cl), "pause-flag-cleared", "the write-paused flag is cleared on every path after it was set")
-		}
-	}
 	// closed DB: no effective buffer → stop with ErrClosed
 	noMem := nilAtom("mdb==nil", mCall("(*leveldb.DB).getEffectiveMem"))
 	checkGuardExact(p, r, GuardSpec{Rule: "closed-db-stops", Fn: cl, Target: func(in ssa.Instruction) bool {
